@@ -13,12 +13,18 @@ open WS.Gen
 
 theorem skeleton_matches_source : ConnCIR.skeleton = Skeleton.code := by decide
 
-/-- the sharper tie: for every function of the skeleton the primitives *in source order, inside their
-control structure* (`if{ … }else{ … }`, `for{ … }`, `select{ case: … }`, `defer{ … }`, `return`) are what
-they were when the CIR program was written against the source (/verif/cir/skeleton_ordered.json).
-Moving a flag update across an unlock, swapping two lock acquisitions, returning before a join or
-dropping a branch changes the regenerated side and breaks this obligation; code that does not
+/-- the CIR builder and the translator read the same committed ordered skeleton. -/
+theorem golden_in_sync : ConnCIR.orderedDeclared = Skeleton.declaredTokens := by decide
+
+/-- the sharper tie: for every function of the skeleton, the **language of primitive sequences along its paths**
+from entry to exit — primitives in order, through `if` / `else`, loops, `select`, `switch`, `defer` bodies, inlined
+helpers, `return`, `break`, `continue` — is what it was when the CIR program was written against the source
+(/verif/cir/skeleton_ordered.json).  Both sides are canonical minimal DFAs computed by the translator (paths.go), so
+the comparison does not depend on how the control flow is spelled: an if-chain or a switch, early returns or else
+branches, `continue` or a shared tail, merged identical branches, a helper extracted or inlined give the same language.
+Moving a flag update across an unlock, swapping two lock acquisitions, arming a timeout before taking a lock,
+returning before a join or dropping a branch changes the language and breaks this obligation; code that does not
 synchronise can change freely. -/
-theorem ordered_matches_source : ConnCIR.orderedDeclared = Skeleton.ordered := by decide
+theorem ordered_matches_source : Skeleton.declared = Skeleton.ordered := by decide
 
 end WS.Props.CIRTie
